@@ -34,14 +34,14 @@ type Tree struct {
 
 // LayoutOpts steer the tree generator.
 type LayoutOpts struct {
-	MaxPkgs    int
-	MaxConvs   int
-	Faults     int  // number of faulty converters (0..)
-	Layouts    bool // non-default output:file / output:package
-	AbsRoot    string
-	AllowCwd   bool // @cwd/ forms
-	SharedFile bool // may route several converters into one file
-	Vars       bool
+	MaxPkgs     int
+	MaxConvs    int
+	Faults      int  // number of faulty converters (0..)
+	Layouts     bool // non-default output:file / output:package
+	AbsRoot     string
+	AllowCwd    bool // @cwd/ forms
+	SharedFile  bool // may route several converters into one file
+	Vars        bool
 	SamePackage bool // may emit into the declaring package itself
 	FaultKinds  []string
 }
